@@ -73,14 +73,67 @@ Lemma enum_numbering_keeps_full : forall evs,
   /\ map ev_anns (enum_number evs 0) = map (fun p => ev_anns (fst p)) evs.
 Proof. intros evs. exact (enum_number_keeps evs 0). Qed.
 
-(** at the edge the code departs from Apache Thrift: the value after 9223372036854775807 is
-    -9223372036854775808 (Go int wrap-around), where Thrift's previous + 1 is 9223372036854775808 *)
+(** *** the whole 64-bit range (after the repair of C10-F22)
+    The Enum action returns an error exactly when Apache Thrift's numbering leaves the 64-bit range
+    (an implicit value after 9223372036854775807), and otherwise assigns exactly Thrift's numbers. *)
+Definition in64 (z : Z) : Prop := - 9223372036854775808 <= z <= 9223372036854775807.
+Definition explicit_in64 (evs : list (enum_value * bool)) : Prop :=
+  Forall (fun p => snd p = true -> in64 (ev_value (fst p))) evs.
+
+Lemma wrap_int64_max : wrap_int64 (9223372036854775807 + 1) = - 9223372036854775808.
+Proof. reflexivity. Qed.
+
+(** the state of the Go loop after a value [prev]: next = prev + 1 (wrapped), overflow = next < prev *)
+Lemma enum_loop_exact : forall evs prev,
+  in64 prev -> explicit_in64 evs ->
+  (Forall in64 (thrift_numbering (map declared_value evs) prev) ->
+     enum_overflow evs (wrap_int64 (prev + 1)) (wrap_int64 (prev + 1) <? prev) = None
+     /\ map ev_value (enum_number evs (wrap_int64 (prev + 1))) = thrift_numbering (map declared_value evs) prev)
+  /\ (~ Forall in64 (thrift_numbering (map declared_value evs) prev) ->
+      exists v, enum_overflow evs (wrap_int64 (prev + 1)) (wrap_int64 (prev + 1) <? prev) = Some v).
+Proof.
+  induction evs as [|[ev ex] t IH]; intros prev Hp He.
+  - cbn. split; [intros _; split; reflexivity | intros Hn; exfalso; apply Hn; constructor].
+  - inversion He as [|? ? Hev Het]; subst. cbn [fst snd] in Hev.
+    cbn [enum_overflow enum_number map thrift_numbering declared_value fst snd]. destruct ex.
+    + specialize (Hev eq_refl). cbn [negb andb map ev_value thrift_numbering].
+      destruct (IH (ev_value ev) Hev Het) as [IH1 IH2]. split.
+      * intros Hf. inversion Hf as [|? ? _ Hrest]; subst. destruct (IH1 Hrest) as [Ho Hv].
+        split; [exact Ho | rewrite Hv; reflexivity].
+      * intros Hn. apply IH2. intros Hrest. apply Hn. constructor; [exact Hev | exact Hrest].
+    + cbn [negb andb map ev_value thrift_numbering].
+      destruct (Z.eq_dec prev 9223372036854775807) as [Hmax|Hne].
+      * subst prev. rewrite wrap_int64_max. change (-9223372036854775808 <? 9223372036854775807) with true.
+        split.
+        -- intros Hf. inversion Hf as [|? ? Hbad _]; subst. unfold in64 in Hbad. lia.
+        -- intros _. eexists. reflexivity.
+      * assert (Hp' : in64 (prev + 1)) by (unfold in64 in *; lia).
+        rewrite (wrap_int64_id (prev + 1)) by (unfold in64 in *; lia).
+        assert (Hlt : (prev + 1 <? prev) = false) by (apply Z.ltb_ge; lia). rewrite Hlt.
+        destruct (IH (prev + 1) Hp' Het) as [IH1 IH2]. split.
+        -- intros Hf. inversion Hf as [|? ? _ Hrest]; subst. destruct (IH1 Hrest) as [Ho Hv].
+           split; [exact Ho | rewrite Hv; reflexivity].
+        -- intros Hn. apply IH2. intros Hrest. apply Hn. constructor; [exact Hp' | exact Hrest].
+Qed.
+
+Lemma enum_numbering_exact : forall evs,
+  explicit_in64 evs ->
+  (Forall in64 (thrift_numbering (map declared_value evs) (-1)) ->
+     enum_overflow evs 0 false = None
+     /\ map ev_value (enum_number evs 0) = thrift_numbering (map declared_value evs) (-1))
+  /\ (~ Forall in64 (thrift_numbering (map declared_value evs) (-1)) ->
+      exists v, enum_overflow evs 0 false = Some v).
+Proof.
+  intros evs He. assert (Hp : in64 (-1)) by (unfold in64; lia).
+  exact (enum_loop_exact evs (-1) Hp He).
+Qed.
+
+(** the former witness: after  A = 9223372036854775807  a value without a number is an error (it was
+    numbered -9223372036854775808), as Thrift's previous + 1 = 9223372036854775808 is no 64-bit value *)
 Lemma enum_numbering_overflow : forall ev1 ev2,
-  map ev_value (enum_number [(mkev None ev1 9223372036854775807 [], true); (mkev None ev2 (-1) [], false)] 0)
-  = [9223372036854775807; -9223372036854775808]
+  enum_overflow [(mkev None ev1 9223372036854775807 [], true); (mkev None ev2 (-1) [], false)] 0 false = Some ev2
   /\ thrift_numbering [Some 9223372036854775807; None] (-1) = [9223372036854775807; 9223372036854775808].
 Proof. intros. split; reflexivity. Qed.
-
 
 (** ** The generated grammar is what the translator says it read, and the model knows every
     action and rule it mentions *)
@@ -116,7 +169,9 @@ Proof.
   destruct (parse_text input) as [[v|es]|]; cbn; [destruct v; discriminate | discriminate | congruence].
 Qed.
 
-(** ** Witnesses: Thrift-valid texts the faithful model (like the real parser) rejects or misreads *)
+(** ** Instances: Thrift-valid texts that the pinned grammar rejected or misread (repaired defects
+    C10-F8a..e, F17..F20) and what the model of the repaired grammar returns for them; and one that is
+    still rejected (C10-F16) *)
 Definition idl (s : string) : bytes := app (bytes_of_string s) [10].
 Definition cat (l : list bytes) : bytes := List.concat l.
 Definition tname (t : ptype) : bytes := match t with PType n _ _ _ => n end.
@@ -125,49 +180,68 @@ Definition is_rejected (o : parse_outcome) : bool := match o with PErr _ => true
 Open Scope string_scope.
 
 Lemma w_basetype_prefix :
-  is_rejected (parse_idl (idl "typedef i32x T")) = true
-  /\ is_rejected (parse_idl (idl "struct S { 1: stringList names }")) = true
-  /\ is_rejected (parse_idl (idl "service S { binary_data get() }")) = true.
-Proof. vm_compute. repeat split; reflexivity. Qed.
+  (exists f, parse_idl (idl "typedef i32x T") = POk f
+             /\ map (fun t => tname (td_type t)) (fr_typedefs f) = [bytes_of_string "i32x"])
+  /\ (exists f, parse_idl (idl "struct S { 1: stringList names }") = POk f
+                /\ map (fun s => map (fun fl => tname (f_type fl)) (s_fields s)) (fr_structs f)
+                   = [[bytes_of_string "stringList"]])
+  /\ (exists f, parse_idl (idl "service S { binary_data get() }") = POk f
+                /\ map (fun s => map (fun m => option_map tname (m_return m)) (sv_methods s)) (fr_services f)
+                   = [[Some (bytes_of_string "binary_data")]]).
+Proof. repeat split; eexists; vm_compute; split; reflexivity. Qed.
 
 Lemma w_modifier_prefix :
-  exists f, parse_idl (idl "struct S { 1: optionalThing x }") = POk f
+  exists f, parse_idl (idl "struct S { 1: optionalThing x, 2: optional Thing y }") = POk f
             /\ map (fun s => map (fun fl => (f_mod fl, tname (f_type fl))) (s_fields s)) (fr_structs f)
-               = [[(m_optional, bytes_of_string "Thing")]].
+               = [[(m_default, bytes_of_string "optionalThing"); (m_optional, bytes_of_string "Thing")]].
 Proof. eexists. vm_compute. split; reflexivity. Qed.
 
 Lemma w_oneway_prefix :
-  exists f, parse_idl (idl "service S { onewayTicket get() }") = POk f
+  exists f, parse_idl (idl "service S { onewayTicket get(), oneway void put() }") = POk f
             /\ map (fun s => map (fun m => (m_oneway m, option_map tname (m_return m))) (sv_methods s)) (fr_services f)
-               = [[(true, Some (bytes_of_string "Ticket"))]].
+               = [[(false, Some (bytes_of_string "onewayTicket")); (true, None)]].
 Proof. eexists. vm_compute. split; reflexivity. Qed.
 
-Lemma w_void_prefix : is_rejected (parse_idl (idl "service S { voidable get() }")) = true.
-Proof. vm_compute. reflexivity. Qed.
+Lemma w_void_prefix :
+  exists f, parse_idl (idl "service S { voidable get(), void put() }") = POk f
+            /\ map (fun s => map (fun m => option_map tname (m_return m)) (sv_methods s)) (fr_services f)
+               = [[Some (bytes_of_string "voidable"); None]].
+Proof. eexists. vm_compute. split; reflexivity. Qed.
 
 Lemma w_bool_prefix :
-  is_rejected (parse_idl (idl "const bool y = trueValue")) = true
-  /\ exists f, parse_idl (idl "const list<bool> y = [trueValue]") = POk f
-               /\ map c_value (fr_constants f) = [CList [CBool true; CIdent (bytes_of_string "Value")]].
-Proof. split; [vm_compute; reflexivity|]. eexists. vm_compute. split; reflexivity. Qed.
+  (exists f, parse_idl (idl "const bool y = trueValue") = POk f
+             /\ map c_value (fr_constants f) = [CIdent (bytes_of_string "trueValue")])
+  /\ exists f, parse_idl (idl "const list<bool> y = [trueValue, true, falsey]") = POk f
+               /\ map c_value (fr_constants f)
+                  = [CList [CIdent (bytes_of_string "trueValue"); CBool true; CIdent (bytes_of_string "falsey")]].
+Proof. split; eexists; vm_compute; split; reflexivity. Qed.
 
 Lemma w_newline_inside_declaration :
   is_rejected (parse_idl (cat [bytes_of_string "typedef"; [10]; bytes_of_string "  i32 T"; [10]])) = true.
 Proof. vm_compute. reflexivity. Qed.
 
 Lemma w_comment_in_prefix :
-  exists f, parse_idl (idl "scope S prefix /* topic */ foo.bar {}") = POk f
-            /\ map (fun s => p_string (sc_prefix s)) (fr_scopes f) = [bytes_of_string "/* topic */ foo.bar"].
+  exists f, parse_idl (idl "scope S prefix /* topic */ foo.{user}.bar {}") = POk f
+            /\ map (fun s => (p_string (sc_prefix s), p_vars (sc_prefix s))) (fr_scopes f)
+               = [(bytes_of_string "foo.{user}.bar", [bytes_of_string "user"])].
 Proof. eexists. vm_compute. split; reflexivity. Qed.
 
-Lemma w_const_map_semicolon : is_rejected (parse_idl (idl "const map<i32,i32> m = {1:2; 3:4}")) = true.
-Proof. vm_compute. reflexivity. Qed.
+Lemma w_const_map_semicolon :
+  exists f, parse_idl (idl "const map<i32,i32> m = {1:2; 3:4, 5:6 7:8;}") = POk f
+            /\ map c_value (fr_constants f)
+               = [CMap [(CInt 1, CInt 2); (CInt 3, CInt 4); (CInt 5, CInt 6); (CInt 7, CInt 8)]].
+Proof. eexists. vm_compute. split; reflexivity. Qed.
 
-(** "a\\" : a string literal whose value ends in a backslash; "it\'s" : an escaped apostrophe *)
+(** "a\\" : a string literal whose value ends in a backslash; "it\'s" : an escaped apostrophe inside double
+    quotes; 'say \"hi\"' : escaped double quotes inside apostrophes *)
 Lemma w_literals :
-  is_rejected (parse_idl (cat [bytes_of_string "const string s = "; [34; 97; 92; 92; 34; 10]])) = true
-  /\ is_rejected (parse_idl (cat [bytes_of_string "const string s = "; [34; 105; 116; 92; 39; 115; 34; 10]])) = true.
-Proof. vm_compute. split; reflexivity. Qed.
+  (exists f, parse_idl (cat [bytes_of_string "const string s = "; [34; 97; 92; 92; 34; 10]]) = POk f
+             /\ map c_value (fr_constants f) = [CStr [97; 92]])
+  /\ (exists f, parse_idl (cat [bytes_of_string "const string s = "; [34; 105; 116; 92; 39; 115; 34; 10]]) = POk f
+                /\ map c_value (fr_constants f) = [CStr [105; 116; 39; 115]])
+  /\ (exists f, parse_idl (cat [bytes_of_string "const string s = "; [39; 92; 34; 104; 105; 92; 34; 39; 10]]) = POk f
+                /\ map c_value (fr_constants f) = [CStr [34; 104; 105; 34]]).
+Proof. repeat split; eexists; vm_compute; split; reflexivity. Qed.
 
 (** ParseFrugal: a top-level constant naming an enum member is accepted (since the repair of
     validateConstant), as the same reference is as a field default; circular typedefs are rejected *)
